@@ -190,6 +190,9 @@ def word_atoms(text: str, line: int = 1) -> list:
             special = T("property", kids=[T("simple_prop", kids=[idn_of(k), Tok("COLON", ":"), Tok("COLON", ":"), T("simple_prop_value", kids=[idn_of(v)], line=line)], line=line)], line=line)
         elif re.fullmatch(r"\[\[[A-Za-z0-9_]+\]\]", w):
             special = T("link", kids=[Tok("T__0", "[["), T("id_group", kids=[idn_of(w[2:-2])], line=line), Tok("T__1", "]]")], line=line)
+        elif re.fullmatch(r"https?://[A-Za-z0-9_./-]+", w):
+            # url : url_schema url_domain ...  -- built from tokens only: a bare URL contributes NO `id` node
+            special = T("url", kids=[T("url_schema", kids=[Tok("ID", w.split(":")[0]), Tok("COLON", ":"), Tok("FSLASH", "/"), Tok("FSLASH", "/")], line=line), T("url_domain", kids=[Tok("ID", w.split("//", 1)[1])], line=line)], line=line)
         if special is not None:
             atoms.append(T("space_atom", kids=[Tok("SPACE", " "), T("atom", kids=[T("word_group", kids=[T("word", kids=[T("unquoted_word", kids=[special])])])])], line=line))
             continue
